@@ -157,6 +157,52 @@ pub fn gen_char(rng: &mut Rng) -> char {
 /// White_Space of every kind, case-expanding characters, final-sigma contexts, lengths around
 /// small bounds.
 pub fn gen_string(rng: &mut Rng, max_len: usize) -> String {
+    // Rarely: a LONG value (size limits, buffer reuse, length arithmetic in bytes vs chars).
+    if rng.chance(1, 160) {
+        let n = *rng.pick(&[130usize, 300, 1100, 4200, 66000]);
+        let unit: &[char] = match rng.below(4) {
+            0 => &['a'],
+            1 => &['ß', 'x'],
+            2 => &['語', ' ', 'b'],
+            _ => &['😀', 'İ', '-', 'q', '_'],
+        };
+        let mut s = String::with_capacity(n * 2);
+        for i in 0..n {
+            s.push(unit[i % unit.len()]);
+        }
+        return s;
+    }
+    // Sometimes: a string whose BYTE-length bookkeeping coincides - the surrounding white space has
+    // exactly as many bytes as a case mapping adds (or removes), so "length unchanged" checks done
+    // on byte lengths give the wrong answer.
+    if rng.chance(1, 40) {
+        let c = *rng.pick(case_expanding());
+        let up: String = c.to_uppercase().collect();
+        let lo: String = c.to_lowercase().collect();
+        let delta = if rng.chance(1, 2) { up.len() as i64 - c.len_utf8() as i64 } else { lo.len() as i64 - c.len_utf8() as i64 };
+        let mut core = String::new();
+        for _ in 0..rng.below(3) {
+            core.push((b'a' + rng.below(26) as u8) as char);
+        }
+        core.push(c);
+        for _ in 0..rng.below(3) {
+            core.push((b'a' + rng.below(26) as u8) as char);
+        }
+        let pad = delta.unsigned_abs() as usize;
+        let mut s = String::new();
+        let lead = rng.usize_below(pad + 1);
+        for i in 0..pad {
+            let ws = *rng.pick(&[' ', '\t', '\n']);
+            if i < lead {
+                s.push(ws);
+            }
+        }
+        s.push_str(&core);
+        for _ in lead..pad {
+            s.push(*rng.pick(&[' ', '\t', '\n']));
+        }
+        return s;
+    }
     let mut s = String::new();
     if rng.chance(1, 3) {
         for _ in 0..rng.range_usize(1, 3) {
